@@ -243,6 +243,7 @@ func (env *Env) tr(e *E) Val {
 			}
 			for k, v := range env.entryParams {
 				nv[k] = v
+				nv["my_"+k] = v
 			}
 			n.vars = nv
 		}
